@@ -9,6 +9,7 @@ from ..peval import Unsupported
 from ..poly import Poly, Rat, S
 from ..qeval import QEval, ArrayV, VectorV, UnitV, NumV, QError, DimError, R, DIMLESS
 from ..source import norm, const_value, walk_no_nested, FuncInfo, ClassInfo
+from . import direction_folds as df
 from .common import is_name, params, returns_of, calls_in, single_return
 
 EXPLANATION = (
@@ -33,131 +34,18 @@ GD = "plot/direction.py::get_direction"
 
 
 def r1_axis_table(run, tree):
-    run.rule("C18.R1", "axis table: unit axis vectors; named triples orthonormal and right-handed", "D7 on extracted literals", "",
-             floor=5)
-    fi = tree.func(GD)
-    run.analysed(fi)
-    table = None
-    for n in walk_no_nested(fi.node):
-        if isinstance(n, ast.Assign) and isinstance(n.value, ast.Dict) and all(isinstance(v, ast.Call) and norm(v.func) == "Vector"
-                                                                              for v in n.value.values) and n.value.values:
-            table = (n.targets[0].id if isinstance(n.targets[0], ast.Name) else None, n.value, n)
-    if table is None:
-        run.unresolved(GD + "::axis-table", fi.where(), "dict of axis Vectors not found")
-        return
-    tname, dnode, tstmt = table
-    vecs = {}
-    for k, v in zip(dnode.keys, dnode.values):
-        comps = [const_value(a) for a in v.args]
-        vecs[const_value(k)] = tuple(comps)
-    want = {"x": (1, 0, 0), "y": (0, 1, 0), "z": (0, 0, 1)}
-    for k in "xyz":
-        run.ob("%s::axis-table[%s]" % (GD, k), vecs.get(k) == want[k], fi.where(tstmt), "%s -> %s" % (k, vecs.get(k)),
-               "direction='%s' maps along another axis" % k)
-
-    def cross(a, b):
-        return (a[1] * b[2] - a[2] * b[1], a[2] * b[0] - a[0] * b[2], a[0] * b[1] - a[1] * b[0])
-
-    def dot(a, b):
-        return sum(x * y for x, y in zip(a, b))
-    # single letters
-    for letter in "xyz":
-        found = None
-        for n in walk_no_nested(fi.node):
-            if isinstance(n, ast.If) and isinstance(n.test, ast.Compare) and is_name(n.test.left, params(fi)[0]) and \
-                    const_value(n.test.comparators[0]) == letter and isinstance(n.test.ops[0], ast.Eq):
-                for st in n.body:
-                    if isinstance(st, ast.Return) and isinstance(st.value, ast.Call):
-                        found = st.value
-        construct = "%s::letter[%s]" % (GD, letter)
-        if found is None:
-            run.violated(construct, fi.where(), "direction == '%s' has no branch returning a basis" % letter,
-                         "map(direction='%s') returns None" % letter)
-            continue
-        trip = {}
-        for k in found.keywords:
-            v = k.value
-            if isinstance(v, ast.Subscript) and is_name(v.value, tname) and const_value(v.slice) in vecs:
-                trip[k.arg] = vecs[const_value(v.slice)]
-        if set(trip) != {"n", "u", "v"} or any(None in t or t is None for t in trip.values()):
-            run.unresolved(construct, fi.where(found), "basis arguments not understood: %s" % norm(found))
-            continue
-        n_, u_, v_ = trip["n"], trip["u"], trip["v"]
-        ok = (n_ == want[letter] and dot(n_, u_) == 0 and dot(n_, v_) == 0 and dot(u_, v_) == 0 and
-              all(dot(t, t) == 1 for t in (n_, u_, v_)) and cross(u_, v_) == n_)
-        run.ob(construct, ok, fi.where(found), "n=%s u=%s v=%s; u x v = %s" % (n_, u_, v_, cross(u_, v_)),
-               "direction='%s' gives a mirrored or non-orthogonal image plane" % letter)
-    # three letters
-    tri = None
-    for n in walk_no_nested(fi.node):
-        if isinstance(n, ast.If) and "set(" in norm(n.test) and "xyz" in norm(n.test):
-            for st in n.body:
-                if isinstance(st, ast.Return) and isinstance(st.value, ast.Call):
-                    tri = st.value
-    if tri is None:
-        run.violated(GD + "::triple", fi.where(), "three-letter directions are not handled", "map(direction='zyx')")
-    else:
-        kws = {k.arg: norm(k.value) for k in tri.keywords}
-        d = params(fi)[0]
-        ok = kws == {"n": "%s[%s[0]]" % (tname, d), "u": "%s[%s[1]]" % (tname, d), "v": "%s[%s[2]]" % (tname, d)}
-        run.ob(GD + "::triple", ok, fi.where(tri), "three-letter direction -> %s" % kws, "'zyx' does not put z normal, y horizontal, x vertical")
-    # case-insensitivity
-    lower = any(isinstance(n, ast.Assign) and norm(n.value) == "%s.lower()" % params(fi)[0] for n in walk_no_nested(fi.node))
-    run.ob(GD + "::case-insensitive", lower, fi.where(), "string directions lower-cased: %s" % lower, "direction='Z' rejected",
-           nontrivial=False)
+    run.rule("C18.R1", "every string form ('x','y','z', the six three-letter orders, any case) gives exactly the documented axis vectors; "
+             "single letters are right-handed; anything unusable raises", "D7 fold of get_direction/VectorBasis/normalize over the complete "
+             "finite domain of string forms, exact rational arithmetic", "", floor=12)
+    df.check_string_forms(run, tree)
 
 
 def r2_constructor(run, tree):
-    run.rule("C18.R2", "VectorBasis completes u and v and normalises all three; exact-zero guard in normalize", "path rule", "",
-             floor=6)
-    ci = tree.cls(VB)
-    fi = tree.method(ci, "__init__")
-    run.analysed(fi)
-    pn = params(fi)
-    SELF, N, U, V = pn[0], pn[1], pn[2], pn[3]
-    body = fi.node.body
-    text = [norm(s) for s in body]
-    u_ok = any(t in ("%s.u = perpendicular_vector(%s.n) if %s is None else %s" % (SELF, SELF, U, U),
-                     "%s.u = %s if %s is not None else perpendicular_vector(%s.n)" % (SELF, U, U, SELF)) for t in text)
-    v_ok = any(t in ("%s.v = %s.n.cross(%s.u) if %s is None else %s" % (SELF, SELF, SELF, V, V),
-                     "%s.v = %s if %s is not None else %s.n.cross(%s.u)" % (SELF, V, V, SELF, SELF)) for t in text)
-    run.ob(VB + ".__init__::u-completed", u_ok, fi.where(), "missing u -> perpendicular_vector(n): %s" % u_ok,
-           "a bare normal gives an arbitrary / undefined horizontal axis")
-    run.ob(VB + ".__init__::v-completed", v_ok, fi.where(), "missing v -> n.cross(u) (receiver n, argument u): %s" % v_ok,
-           "u x v = -n: the map is mirrored")
-    order_ok = True
-    for c in "nuv":
-        idx = [i for i, t in enumerate(text) if t == "%s.%s = normalize(%s.%s)" % (SELF, c, SELF, c)]
-        last_assign = max([i for i, s in enumerate(body) if isinstance(s, ast.Assign) and norm(s.targets[0]) == "%s.%s" % (SELF, c)] or [-1])
-        ok = bool(idx) and idx[-1] == last_assign
-        run.ob("%s.__init__::%s-normalised" % (VB, c), ok, fi.where(), "final value of %s is normalize(%s): %s" % (c, c, ok),
-               "basis vector %s keeps the length of the input (pixel coordinates are scaled)" % c)
-    # completion happens before normalisation of n? (cross of un-normalised vectors is fine) — but u must be computed
-    # from n before v is computed from n and u
-    iu = next((i for i, t in enumerate(text) if t.startswith("%s.u = " % SELF) and "perpendicular" in t), None)
-    iv = next((i for i, t in enumerate(text) if t.startswith("%s.v = " % SELF) and "cross" in t), None)
-    run.ob(VB + ".__init__::order", iu is not None and iv is not None and iu < iv, fi.where(), "u is completed before v is derived from it",
-           "v computed from an unset u", nontrivial=False)
-    # normalize
-    nf = tree.func(NORMALIZE)
-    run.analysed(nf)
-    src = [norm(s) for s in walk_no_nested(nf.node) if isinstance(s, ast.Return)]
-    vp = params(nf)[0]
-    divides = all(r.startswith("return %s / " % vp) for r in src) and bool(src)
-    run.ob(NORMALIZE + "::divides-by-norm", divides, nf.where(), "returns %s" % src, "the vector is not scaled to unit length")
-    norm_name = None
-    for n in walk_no_nested(nf.node):
-        if isinstance(n, ast.Assign) and norm(n.value) in ("%s.norm" % vp,):
-            norm_name = n.targets[0].id
-    tolerant = [norm(c.func) for c in calls_in(nf.node) if norm(c.func).split(".")[-1] in ("isclose", "allclose", "less", "less_equal")]
-    cmp_ok = True
-    for n in walk_no_nested(nf.node):
-        if isinstance(n, ast.Compare) and not isinstance(n.ops[0], (ast.Eq, ast.NotEq, ast.Is, ast.IsNot)):
-            cmp_ok = False
-    exact = not tolerant and cmp_ok
-    run.ob(NORMALIZE + "::exact-zero-guard", exact, nf.where(), "zero guard %s" % (
-        "is an exact == 0 / truthiness test" if exact else "uses a tolerance (%s)" % (tolerant or "inequality")),
-           "a non-zero normal of length <= the tolerance (e.g. 1e-10, or a tiny angular momentum) is left un-normalised")
+    run.rule("C18.R2", "VectorBasis / get_direction on a vector: orthonormal, u x v = +n, n along the request, for a generic vector of every "
+             "zero-pattern family; roll is the cyclic permutation; a given basis passes through; the caller's vector is not changed",
+             "D7 fold over 7 zero-pattern families with symbolic components (rational functions + square-root relations; sign decided "
+             "per orthant)", "", floor=20)
+    df.check_vector_forms(run, tree)
 
 
 def _run_pv(tree, zero_mode, comps=("x", "y", "z")):
@@ -282,7 +170,7 @@ def kernel_vector(rows):
 
 def r4_handedness(run, tree):
     run.rule("C18.R4", "handedness: u x (n x u) is parallel to +n for the repository's cross product; roll is cyclic",
-             "D1 polynomial identity", "", floor=2)
+             "D1 polynomial identity", "", floor=1)
     fi = tree.func("core/vector.py::Vector.cross")
     n = VectorV({c: ArrayV(S("n" + c), DIMLESS) for c in "xyz"})
     u = VectorV({c: ArrayV(S("u" + c), DIMLESS) for c in "xyz"})
@@ -306,90 +194,13 @@ def r4_handedness(run, tree):
     run.ob(VB + "::u-cross-v-parallel-to-n", lhs == rhs, fi.where(),
            "(u x (n x u)) . n %s |u|^2 |n|^2 - (u.n)^2" % ("==" if lhs == rhs else "!="),
            "with v = n x u the basis is left-handed (u x v = -n): the map is mirrored")
-    ci = tree.cls(VB)
-    rf = tree.method(ci, "roll")
-    if rf is None:
-        run.violated(VB + ".roll", ci.module.rel, "roll missing", "direction='side'")
-        return
-    ret = single_return(rf)
-    sp = params(rf)[0]
-    kws = {k.arg: norm(k.value) for k in ret.keywords} if isinstance(ret, ast.Call) else {}
-    ok = kws == {"n": "%s.u" % sp, "u": "%s.v" % sp, "v": "%s.n" % sp}
-    run.ob(VB + ".roll", ok, rf.where(), "roll -> %s" % kws, "'side' does not put the angular momentum in the image plane, or flips handedness")
 
 
 def r5_forms(run, tree):
-    run.rule("C18.R5", "every accepted form returns a basis; top/side from the mass-weighted angular momentum", "path rule", "",
-             floor=6)
-    fi = tree.func(GD)
-    run.analysed(fi)
-    D = params(fi)[0]
-    rets = returns_of(fi.node)
-    for r in rets:
-        v = r.value
-        ok = False
-        if isinstance(v, ast.Call):
-            c = tree.resolve_call(fi, v)
-            if isinstance(c, ClassInfo) and c.qual == VB:
-                ok = True
-            elif isinstance(c, FuncInfo) and c.qual == "plot/direction.py::_basis_with_names":
-                ok = True
-        run.ob("%s::return@%s" % (GD, norm(v)[:50] if v is not None else "None"), ok, fi.where(r),
-               "returns %s" % (norm(v)[:70] if v is not None else "None"), "an accepted direction yields something that is not a basis")
-    # _basis_with_names returns its argument
-    bn = tree.func("plot/direction.py::_basis_with_names")
-    rr = returns_of(bn.node)
-    run.ob("plot/direction.py::_basis_with_names::returns-basis", len(rr) == 1 and is_name(rr[0].value, params(bn)[0]), bn.where(),
-           "returns its argument", "", nontrivial=False)
-    # Vector / VectorBasis / else-raise
-    branches = {"Vector": False, "VectorBasis": False, "raise": False}
-    for n in walk_no_nested(fi.node):
-        if isinstance(n, ast.If) and isinstance(n.test, ast.Call) and is_name(n.test.func, "isinstance") and is_name(n.test.args[0], D):
-            r = tree.resolve_expr(fi.module, n.test.args[1])
-            if isinstance(r, ClassInfo) and r.name in branches:
-                body = " ".join(norm(s) for s in n.body)
-                if r.name == "Vector":
-                    branches["Vector"] = "VectorBasis(n=%s)" % D in body
-                else:
-                    branches["VectorBasis"] = all(("%s=%s.%s" % (c, D, c)) in body for c in "nuv")
-            cur = n
-            while cur.orelse:
-                if len(cur.orelse) == 1 and isinstance(cur.orelse[0], ast.If):
-                    cur = cur.orelse[0]
-                    continue
-                if any(isinstance(s, ast.Raise) for s in cur.orelse):
-                    branches["raise"] = True
-                break
-    run.ob(GD + "::normal-vector", branches["Vector"], fi.where(), "a Vector direction -> VectorBasis(n=direction): %s" % branches["Vector"],
-           "n is not parallel to the requested normal")
-    run.ob(GD + "::explicit-basis", branches["VectorBasis"], fi.where(), "a VectorBasis direction keeps n,u,v: %s" % branches["VectorBasis"],
-           "an explicit basis is permuted")
-    run.ob(GD + "::unrecognised-raises", branches["raise"], fi.where(), "unrecognised non-string direction raises: %s" % branches["raise"],
-           "a bad direction silently returns None", nontrivial=False)
-    # top / side
-    stm = {norm(s): s for s in walk_no_nested(fi.node) if isinstance(s, ast.stmt)}
-    txt = list(stm)
-    am = [t for t in txt if ".cross(" in t]
-    sphere = [t for t in txt if t.startswith("sphere = ")]
-    rad = [t for t in txt if t.startswith("sphere_rad = ") and "dx" in t and "dy" in t]
-    wp = [t for t in txt if t.startswith("weighted_pos = ")]
-    ok_am = any(t.replace(" ", "") == "ang_mom=np.sum(weighted_pos.cross(vel))" for t in am)
-    ok_wp = any(t == "weighted_pos = pos[sphere] * data['mass'][sphere]" for t in wp)
-    ok_vel = any(t == "vel = data['velocity'][sphere]" for t in txt)
-    ok_sphere = any(t == "sphere = (pos.norm < sphere_rad).values" for t in sphere)
-    ok_rad = any(t.replace(" ", "") in ("sphere_rad=0.25*(dx+dy)", "sphere_rad=(dx+dy)/4", "sphere_rad=(dx+dy)*0.25") for t in rad)
-    ok_origin = any(t == "pos = pos - origin" for t in txt)
-    run.ob(GD + "::angular-momentum", ok_am and ok_wp and ok_vel, fi.where(),
-           "n = sum((pos*mass)[sphere] x vel[sphere]): cross=%s weighted=%s vel=%s" % (ok_am, ok_wp, ok_vel),
-           "'top' looks along -L (receiver/argument swapped) or along an unweighted / unrestricted angular momentum")
-    run.ob(GD + "::sphere", ok_sphere and ok_rad and ok_origin, fi.where(),
-           "sphere = |pos - origin| < (dx+dy)/4: test=%s radius=%s origin=%s" % (ok_sphere, ok_rad, ok_origin),
-           "the angular momentum is taken over the wrong region")
-    side = any(isinstance(n, ast.If) and isinstance(n.test, ast.Compare) and const_value(n.test.comparators[0]) == "side" and
-               any(norm(s) == "basis = basis.roll()" for s in n.body) for n in walk_no_nested(fi.node))
-    basis_from_L = any(t == "basis = VectorBasis(n=ang_mom)" for t in txt)
-    run.ob(GD + "::side-is-roll", side and basis_from_L, fi.where(), "basis = VectorBasis(n=ang_mom); side -> roll(): %s/%s" % (basis_from_L, side),
-           "'side' does not put the angular momentum in the image plane")
+    run.rule("C18.R5", "'top' / 'side': L = sum over the sphere |pos - origin| < radius of ((pos - origin) * mass) x velocity; top looks "
+             "along +L, side puts L in the image plane", "D7 fold of get_direction over token data (polynomial normal forms of the summed "
+             "vector and of the sphere mask) + symbolic basis", "", floor=6)
+    df.check_angular_momentum(run, tree)
 
 
 def r6_norm_fresh(run, tree):
